@@ -7,6 +7,7 @@ import (
 	"go/types"
 	"sort"
 	"strings"
+	"time"
 
 	"golang.org/x/tools/go/ssa"
 
@@ -39,25 +40,33 @@ type Oblig struct {
 }
 
 type interp struct {
-	prog      *core.Program
-	at        *atoms
-	K         int
-	maxDepth  int
-	frames    map[string]frameID
-	finfo     []frameInfo
-	obls      map[string]*Oblig
-	oblOrder  []string
-	record    bool
-	forests   map[*ssa.Function]*forest
-	nEntail   int
-	nFeas     int
-	funcs     map[*ssa.Function]bool
-	hooks     *Hooks
-	retStack  [][]*disjunct
-	warnings  []string
-	steps     int
-	loopMemo  map[string]*loopMemo
-	sentinels map[*ssa.Global]bool
+	prog            *core.Program
+	at              *atoms
+	K               int
+	maxDepth        int
+	frames          map[string]frameID
+	finfo           []frameInfo
+	obls            map[string]*Oblig
+	oblOrder        []string
+	record          bool
+	forests         map[*ssa.Function]*forest
+	nEntail         int
+	nFeas           int
+	funcs           map[*ssa.Function]bool
+	hooks           *Hooks
+	retStack        [][]*disjunct
+	warnings        []string
+	steps           int
+	loopMemo        map[string]*loopMemo
+	sentinels       map[*ssa.Global]bool
+	maxJoin         int
+	retCap          int
+	bindFrame       *frameID
+	inlinedClosures map[*ssa.Function]bool
+	tTrue, tFalse   [4]time.Duration
+	nTrue, nFalse   [4]int
+	nFast           int
+	nMerges         int
 }
 
 // Hooks lets a property attach contracts.
@@ -71,7 +80,7 @@ type Hooks struct {
 
 func newInterp(prog *core.Program, K, depth int) *interp {
 	return &interp{prog: prog, at: newAtoms(), K: K, maxDepth: depth, frames: map[string]frameID{},
-		obls: map[string]*Oblig{}, forests: map[*ssa.Function]*forest{}, funcs: map[*ssa.Function]bool{}, loopMemo: map[string]*loopMemo{}, sentinels: map[*ssa.Global]bool{}}
+		obls: map[string]*Oblig{}, forests: map[*ssa.Function]*forest{}, funcs: map[*ssa.Function]bool{}, loopMemo: map[string]*loopMemo{}, sentinels: map[*ssa.Global]bool{}, retCap: 8, inlinedClosures: map[*ssa.Function]bool{}}
 }
 
 func (it *interp) frameFor(parent frameID, site ssa.Instruction, fn *ssa.Function) frameID {
@@ -236,7 +245,9 @@ func (it *interp) repOf(d *disjunct, f frameID, v ssa.Value) rep {
 	case *ssa.FreeVar:
 		a := addr{root: valKey{f, x}}
 		return rep{kind: kPtr, isnil: lin.Const(0), at: &a}
-	case *ssa.Function, *ssa.MakeClosure, *ssa.Builtin:
+	case *ssa.MakeClosure:
+		return rep{kind: kPtr, isnil: lin.Const(0), clos: &closRef{f: f, mc: x}}
+	case *ssa.Function, *ssa.Builtin:
 		return rep{kind: kPtr, isnil: lin.Const(0)}
 	case *ssa.Parameter:
 		r := it.freshRep(d, f, v, v.Type())
